@@ -872,7 +872,21 @@ impl<T: PPGEvaluatorStrategy> PPGEvaluator<T> {
                                     //we have an old edge
                                     Some(old_run_history) => old_run_history,
                                     None => {
-                                        continue;
+                                        // the upstream may be a renamed multi-output job: what the
+                                        // downstream consumed is then recorded under the old name,
+                                        // and the filter above drops that record once the downstream
+                                        // has recorded - so carry it over to the current name.
+                                        match Self::try_finding_renamed_multi_output_job(
+                                            job_id_a,
+                                            job_id_b,
+                                            &self.history,
+                                        )
+                                        .and_then(|old_id| {
+                                            self.history.get(&format!("{}!!!{}", old_id, job_id_b))
+                                        }) {
+                                            Some(old_run_history) => old_run_history,
+                                            None => continue,
+                                        }
                                     }
                                 }
                             }
